@@ -270,7 +270,9 @@ func (c *checker) checkRendered(rd *rendered, how string) {
 	if res.panicked != "" {
 		return
 	}
-	witness := fmt.Sprintf("witness GEN %s %s", hx(string(rd.doc)), rd.trueDump)
+	// replayable form: the document and what the current code is known to answer for it (the
+	// printer's tree with the known position rules applied)
+	witness := fmt.Sprintf("witness GEN %s %s", hx(string(rd.doc)), rd.repDump)
 	switch res.answer {
 	case rd.trueDump:
 		c.rep.Hist("faithful", "true positions")
